@@ -12,7 +12,8 @@ model of every witness found.  Witness of site 9: the harness op `writer-grow <n
 where `L` is the nop at `nops - 32766`, so that the input branch offset is exactly `-32768`.  `duke::read_class`
 accepts it; `duke::write_class` assigns pool indices in order of use (this, super, 2 per interface, method name and
 descriptor), so the Integer gets index `2·nitf + 7`; from 256 on `ldc` becomes `ldc_w`, the `ifeq` moves one byte up,
-its offset `-32769` no longer fits an `i16`, and `if_helper` computes `opcode_pos + 1 + 2` in `u16`.
+its offset `-32769` no longer fits an `i16`, and `if_helper` computes `opcode_pos + 1 + 2` in `u16` — checked since
+136eeb3 (an error), unchecked before (site 9).
 -/
 
 namespace Total.Writer
@@ -24,7 +25,7 @@ def ifHelperKnown (opcodePos target : Nat) : TM Nat :=
   let branch : Int := (target : Int) - (opcodePos : Int)
   if -32768 ≤ branch ∧ branch ≤ 32767 then pure 3
   else do
-    let _ ← addU16 Sites.writerIfWide opcodePos 3     -- `compute_signed_offset(opcode_pos + 1 + 2, target)`
+    guard (opcodePos + 3 ≤ 65535)                       -- `opcode_pos.checked_add(1 + 2).with_context(..)?` (136eeb3)
     pure 8
 
 /-- the `writer-grow` op: read, then write -/
